@@ -1,6 +1,146 @@
-//! C12 harness commands (stub).
-use std::io::Write;
+//! C12: runs the real `report::process`, `Ledger::balance`, `Ledger::postings` (register) on a ledger and on the same
+//! ledger with aliases substituted for canonical names; optionally the real binary (`okane balance`, `okane register`).
+//!
+//! `hx c12 pair` — case line: `<id> o=<enc text> [s=<enc text>] [bin=1]`
+//! output: `<id> to=(<entries>) ro=<result> go=<register> [ts=(..) rs=<result> gs=<register>] bin=<..>`
+//!   result   = as `hx process`: `(ok (txns ..) (bal ..))` | `(err IDX KIND ..)` | `(loaderr K)` | `(panic M)`
+//!   register = `((account ((commodity n m s)..) ((commodity n m s)..))...)` posting amount and running total, or `-`
+//!   bin      = `<rc balance o>,<rc register o>[,<rc balance s>,<rc register s>,<balance equal>,<register equal>] <enc balance stdout of s or o>`
+use std::io::{BufRead, Write};
+use std::path::PathBuf;
 
-pub fn run(_args: &[String], _out: &mut dyn Write) -> i32 {
+use bumpalo::Bump;
+use okane_core::report::{self, query, ReportContext};
+
+use crate::proc;
+use crate::sx::{self, enc};
+
+const BASE: &str = "/verif/work/C12/fs";
+
+fn register(text: &str) -> String {
+    let files = vec![("/r/main.ledger".to_string(), text.to_string())];
+    let r = sx::catch(move || {
+        let arena = Bump::new();
+        let mut ctx = ReportContext::new(&arena);
+        let res = report::process(&mut ctx, proc::fake_loader(&files, "/r/main.ledger"), &report::ProcessOptions::default());
+        let text = match res {
+            Ok(ledger) => {
+                let mut total = report::Amount::default();
+                let rows: Vec<String> = ledger
+                    .postings(&ctx, &query::PostingQuery { account: None })
+                    .iter()
+                    .map(|p| {
+                        total += p.amount.clone();
+                        format!("({} {} {})", enc(p.account.as_str()), proc::amount_sx(&p.amount), proc::amount_sx(&total))
+                    })
+                    .collect();
+                format!("({})", rows.join(" "))
+            }
+            Err(_) => "-".to_string(),
+        };
+        text
+    });
+    r.unwrap_or_else(|m| format!("(panic {})", enc(&m)))
+}
+
+fn one(text: &str) -> (String, String, String) {
+    let files = vec![("/r/main.ledger".to_string(), text.to_string())];
+    match proc::load_entries(&files, "/r/main.ledger") {
+        Err(kind) => ("()".to_string(), format!("(loaderr {})", kind), "-".to_string()),
+        Ok(l) => {
+            let tree: Vec<&str> = l.entries.iter().map(|e| e.3.as_str()).collect();
+            let p = proc::run_process(&files, "/r/main.ledger", Some(&l), None);
+            (format!("({})", tree.join(" ")), p.result, register(text))
+        }
+    }
+}
+
+fn run_bin(args: &[&str]) -> (i32, String) {
+    let exe = std::env::current_exe().ok().and_then(|p| p.parent().map(|d| d.join("okane")));
+    let exe = match exe {
+        Some(e) => e,
+        None => return (-2, String::new()),
+    };
+    match std::process::Command::new(exe).args(args).env("NO_COLOR", "1").output() {
+        Ok(o) => (o.status.code().unwrap_or(-1), String::from_utf8_lossy(&o.stdout).to_string()),
+        Err(_) => (-2, String::new()),
+    }
+}
+
+pub fn run(args: &[String], out: &mut dyn Write) -> i32 {
+    if args.first().map(|s| s.as_str()) != Some("pair") {
+        eprintln!("usage: hx c12 pair");
+        return 2;
+    }
+    let stdin = std::io::stdin();
+    for line in stdin.lock().lines() {
+        let line = line.unwrap();
+        let ws: Vec<&str> = line.split(' ').filter(|w| !w.is_empty()).collect();
+        if ws.len() < 2 {
+            writeln!(out, "bad-case").unwrap();
+            continue;
+        }
+        let id = ws[0];
+        let mut o: Option<String> = None;
+        let mut s: Option<String> = None;
+        let mut bin = false;
+        for w in &ws[1..] {
+            if let Some(v) = w.strip_prefix("o=") {
+                o = sx::dec(v);
+            } else if let Some(v) = w.strip_prefix("s=") {
+                s = sx::dec(v);
+            } else if *w == "bin=1" {
+                bin = true;
+            }
+        }
+        let o = match o {
+            Some(o) => o,
+            None => {
+                writeln!(out, "{} bad-case", id).unwrap();
+                continue;
+            }
+        };
+        let (to, ro, go) = one(&o);
+        let mut rec = format!("{} to={} ro={} go={}", id, to, ro, go);
+        if let Some(s) = &s {
+            let (ts, rs, gs) = one(s);
+            rec.push_str(&format!(" ts={} rs={} gs={}", ts, rs, gs));
+        }
+        if bin {
+            let safe: String = id.chars().filter(|c| c.is_ascii_alphanumeric() || *c == '-' || *c == '_').collect();
+            let dir = PathBuf::from(format!("{}/{}-{}", BASE, std::process::id(), safe));
+            let _ = std::fs::remove_dir_all(&dir);
+            std::fs::create_dir_all(&dir).unwrap();
+            let po = dir.join("o.ledger");
+            std::fs::write(&po, &o).unwrap();
+            let po = po.display().to_string();
+            let (rb, ob) = run_bin(&["balance", &po]);
+            let (rr, or) = run_bin(&["register", &po]);
+            match &s {
+                None => rec.push_str(&format!(" bin={},{} {}", rb, rr, enc(&ob))),
+                Some(s) => {
+                    let ps = dir.join("s.ledger");
+                    std::fs::write(&ps, s).unwrap();
+                    let ps = ps.display().to_string();
+                    let (rb2, ob2) = run_bin(&["balance", &ps]);
+                    let (rr2, or2) = run_bin(&["register", &ps]);
+                    rec.push_str(&format!(
+                        " bin={},{},{},{},{},{} {}",
+                        rb,
+                        rr,
+                        rb2,
+                        rr2,
+                        (ob == ob2) as u8,
+                        (or == or2) as u8,
+                        enc(&format!("{}\n--\n{}", ob2, or2))
+                    ));
+                }
+            }
+            let _ = std::fs::remove_dir_all(&dir);
+        } else {
+            rec.push_str(" bin=-");
+        }
+        writeln!(out, "{}", rec).unwrap();
+    }
     0
 }
